@@ -112,6 +112,7 @@ type FnVC struct {
 	invSeen map[string]bool
 	trustedUsed map[string]bool
 	entryCheck *Obligation
+	splitNames []string // see `split`
 }
 
 func (c *FnVC) emit(s string)            { c.out = append(c.out, s) }
@@ -866,6 +867,22 @@ func (c *FnVC) entrySetup() {
 	}
 	c.entry = copyHeap(c.cur)
 	if c.ct != nil {
+		// `split E`: case analysis over an entry-state condition. Every obligation is proved
+		// under E and under !E separately (exhaustive, hence sound); each query then sees
+		// one family of paths only (flushChild: ASN.1 vs TLS-style blocks).
+		ev := c.newEval(c.fn, c.paramEnv(), c.cur, nil)
+		for i, sp := range c.ct.Splits {
+			t, err := ev.boolExpr(sp.Expr)
+			if err != nil {
+				c.errorf("%s: split %q: %v", c.fnName(), sp.Text, err)
+				continue
+			}
+			n := fmt.Sprintf("split_%d", i+1)
+			c.def(n, "Bool", t)
+			c.splitNames = append(c.splitNames, n)
+		}
+	}
+	if c.ct != nil {
 		c.entryCheck = &Obligation{Name: c.fnName() + "#vacuity.entry", Class: "vacuity", Prefix: len(c.out), Guard: "true", Goal: "false", Descr: "requires and assumed invariants are satisfiable", Fn: c}
 	}
 }
@@ -1060,4 +1077,27 @@ func (c *FnVC) allComps() []string {
 	ks := append([]string{}, allKinds...)
 	ks = append(ks, c.te.mapComps()...)
 	return ks
+}
+
+// applySplits replaces every obligation by one per case of the contract's split conditions.
+func (c *FnVC) applySplits() {
+	if len(c.splitNames) == 0 {
+		return
+	}
+	cur := c.obls
+	for _, sn := range c.splitNames {
+		var next []*Obligation
+		for _, o := range cur {
+			if o.Class == "vacuity" || o.Goal == "true" {
+				next = append(next, o)
+				continue
+			}
+			a, b := *o, *o
+			a.Name, a.Guard = o.Name+"|"+sn, and(o.Guard, sn)
+			b.Name, b.Guard = o.Name+"|not_"+sn, and(o.Guard, not(sn))
+			next = append(next, &a, &b)
+		}
+		cur = next
+	}
+	c.obls = cur
 }
